@@ -1,5 +1,6 @@
 import ComposeVerif.Lemmas.Pipeline
 import ComposeVerif.Props.C01Pipeline
+import ComposeVerif.Props.C05
 /-!
 # C01 — the composed pipeline has no panic outcome beyond the four reviewed sites
 
@@ -40,6 +41,31 @@ theorem interpStage_never_panics (c : Cfg) (cfg : Val.KVs) (s : String) : interp
   split
   · intro h; cases h
   · intro h; exact absurd (ofInterp_panic h) (C01.Pipeline.interpolate_never_panics _ _ _)
+
+/-- `ApplyExtends` on the empty file system (same-file bases only): C05's `applyExtends_ok_or_err_real` -/
+theorem extendsStage_never_panics (c : Cfg) (cfg : Val.KVs) (s : String) : extendsStage c cfg ≠ .panic s := by
+  unfold extendsStage
+  split
+  · intro h; cases h
+  · intro h
+    have hp := ofExtends_panic h
+    have hfs : ∀ f s, ¬ Extends.fsPanics ([] : Extends.FS) f s := by
+      intro f s ⟨r, hr, _⟩; simp [Extends.fsLookup] at hr
+    unfold Extends.applyExtends at hp
+    split at hp
+    · rename_i S hS
+      rcases Extends.applyExtends_ok_or_err_real c.mainFile [] hfs (order := Val.keys S) (dict := cfg)
+        (fun S' h' => by
+          rw [hS] at h'; injection h' with h'; injection h' with h'; subst h'
+          intro n
+          rw [Ne, Merge.lookup_eq_none_iff, Classical.not_not]) with ⟨o, ho⟩ | ⟨e, he⟩
+      · rw [ho] at hp; cases hp
+      · rw [he] at hp; cases hp
+    · rename_i hS
+      rcases Extends.applyExtends_ok_or_err_real c.mainFile [] hfs (order := []) (dict := cfg)
+        (fun S' h' => absurd h' (hS S')) with ⟨o, ho⟩ | ⟨e, he⟩
+      · rw [ho] at hp; cases hp
+      · rw [he] at hp; cases hp
 
 theorem defaultsStage_never_panics (c : Cfg) (d : Val) (s : String) : defaultsStage c d ≠ .panic s := by
   unfold defaultsStage
@@ -99,6 +125,8 @@ theorem processDoc_only_panic_sites (c : Cfg) (dict : Val) (cfg : Val.KVs) (s : 
   unfold processDoc at h
   rcases bind_panic h with h1 | ⟨cfg', _, h⟩
   · exact absurd h1 (interpStage_never_panics _ _ _)
+  rcases bind_panic h with h1 | ⟨cfg'', _, h⟩
+  · exact absurd h1 (extendsStage_never_panics _ _ _)
   · exact mergeStages_only_panic_sites _ _ _ _ h
 
 /-- one document read from YAML text, `!reset` / `!override` included -/
@@ -108,6 +136,8 @@ theorem processNode_only_panic_sites (c : Cfg) (dict : Val) (n : Reset.YNode) (s
   split at h
   · rcases bind_panic h with h1 | ⟨cfg', _, h⟩
     · exact absurd h1 (interpStage_never_panics _ _ _)
+    rcases bind_panic h with h1 | ⟨cfg'', _, h⟩
+    · exact absurd h1 (extendsStage_never_panics _ _ _)
     · exact mergeStages_only_panic_sites _ _ _ _ h
   · cases h
 
